@@ -2,7 +2,7 @@
 import ast
 
 from .. import terms as T
-from ..lib import (summarise, heap_writes, V, A, normal, raising, cond_str, loc_attr, nested_events, no_inline, props_only, writers_of_attr, calls_named)
+from ..lib import (summarise, heap_writes, V, A, normal, raising, cond_str, loc_attr, nested_events, no_inline, props_only, writers_of_attr, calls_named, as_len_test)
 from ..symex import Valuation, Undecided, default_policy
 from ..terms import fmt, ZERO, num
 
@@ -36,7 +36,8 @@ def run_loop_table(ctx):
         val = Valuation(order=order, facts=facts, isnone={'self.signals': sig_none, 'self.burn_in_dt': burn is None}, strs={'%s.event_type' % el: et})
 
         def pol(caller, callee, depth):
-            return False
+            # private helpers of the session (burn-in tests etc.) are seen through; the four marked actions stay call events
+            return default_policy(caller, callee, depth) and callee.qn not in marks and callee.qn != 'BacktestTradingSession._is_rebalance_event'
         from ..symex import SymEx
         sx = SymEx(ctx.M, policy=pol, oracle=val, skip_print_guards=False)
         ps = sx.run(fn)
@@ -87,7 +88,7 @@ def cadence(ctx, rule):
     # inside the collection: every signal first learns the universe, then every tracked asset gets one append of the mid price at dt
     qn = 'SignalsCollection.update'
     f2 = ctx.fn(qn)
-    ps = summarise(ctx, qn, policy=props_only)
+    ps = summarise(ctx, qn, policy=default_policy)
     nps = normal(ps)
     if not ctx.require(len(nps) == 1 if len(nps) == 1 else None, rule, 'SignalsCollection.update is straight-line', f2.site(), [cond_str(p) for p in nps]):
         return
@@ -231,9 +232,9 @@ def s3_slots(ctx):
             continue
         warm = None
         for c, v, _ in p.conds:
-            if c == ('cmp', '<', ('call', ('ext', 'LEN'), (r,), ()), num(1)) or c == ('cmp', '==', num(0), ('call', ('ext', 'LEN'), (r,), ())) \
-                    or c == ('cmp', '==', ('call', ('ext', 'LEN'), (r,), ()), num(0)):
-                warm = v
+            t = as_len_test(c, v)
+            if t is not None and t[0] == r:
+                warm = t[1] == 'empty'
         if warm is None:
             ctx.undecided('C16.S3', 'volatility branches on whether a return exists yet', fn.site(), cond_str(p)[:200])
             continue
@@ -245,7 +246,14 @@ def s3_slots(ctx):
         meth_std = [s for s in T.subterms(v) if s[0] == 'call' and s[1] == ('meth', 'std')]
         if meth_std:
             dd = dict(meth_std[0][3]).get('ddof')
-            ctx.require(dd == ZERO, 'C16.S3', 'volatility uses the population standard deviation', fn.site(), 'Series.std() defaults to ddof=1 (sample deviation)', key='C16.S3|vol|ddof')
+            recv = meth_std[0][2][0]
+            is_ndarray = (recv[0] == 'call' and recv[1] in (('meth', 'to_numpy'), ('ext', 'ARRAY'))) or (recv[0] == 'attr' and recv[2] == 'values')
+            if is_ndarray:
+                ctx.require(dd is None or dd == ZERO, 'C16.S3', 'volatility uses the population standard deviation (ndarray.std, ddof=0)', fn.site(), fmt(dd) if dd else None, key='C16.S3|vol|ddof')
+                exp = T.t_mul(('call', ('ext', 'SQRT'), (num(252),), ()), meth_std[0])
+                ctx.require(recv == r and T.teq(v, exp), 'C16.S3', 'volatility = std(simple returns of the window) x sqrt(252)', fn.site(), fmt(v)[:200], key='C16.S3|vol|formula')
+            else:
+                ctx.require(dd == ZERO, 'C16.S3', 'volatility uses the population standard deviation', fn.site(), 'Series.std() defaults to ddof=1 (sample deviation)', key='C16.S3|vol|ddof')
         elif len(stds) == 1 and stds[0][1][1] == 'STD':
             dd = dict(stds[0][3]).get('ddof')
             ctx.require(dd is None or dd == ZERO, 'C16.S3', 'volatility uses the population standard deviation (ddof=0)', fn.site(), 'ddof=%s' % (fmt(dd) if dd else None),
@@ -266,8 +274,9 @@ def s3_slots(ctx):
             continue
         warm = None
         for c, v, _ in p.conds:
-            if c == ('cmp', '<', ('call', ('ext', 'LEN'), (r,), ()), num(1)) or (c[0] == 'cmp' and c[1] == '==' and num(0) in (c[2], c[3]) and ('call', ('ext', 'LEN'), (r,), ()) in (c[2], c[3])):
-                warm = v
+            t = as_len_test(c, v)
+            if t is not None and t[0] == r:
+                warm = t[1] == 'empty'
         if warm is None:
             ctx.undecided('C16.S3', 'momentum branches on whether a return exists yet', fn.site(), cond_str(p)[:200])
             continue
